@@ -13,6 +13,17 @@ CHECKS = {
         design='§5 C17'),
 }
 
+CHECKS['C03'] = dict(
+    technique='Lean 4 theorem decode(encodeWire v ++ rest) = (v, rest) by induction over all type trees + differential correspondence (generated types via the real Alias, bundled types, every payload of real recordings with the model as independent decoder)',
+    text='C03.decode_encode proves, for every type tree of the alias/.def language, every well-typed value and every continuation, that the model reader returns exactly the value and leaves exactly the continuation (lengths < 2^24, any nesting depth, any header size); the model reader is tied to the real codecs by decoding the same wire bytes, truncated and corrupted bytes with both, over generated type trees loaded through the real Alias, every distinct type of the 82 bundled sets, and every method/property payload of the recordings (exact consumption asserted on the implementation).',
+    note='USER_TYPE with a non-blob inner type is outside the proved domain (predicate userOK; counterexample theorem; known finding), wowp 32-bit array counts are a known finding; correspondence is sampled; lxml/struct/socket are external.',
+    design='§5 C03')
+CHECKS['C16'] = dict(
+    technique='Lean 4 theorems write_total / write_sound / read_write / method_write_read about the writer model + differential correspondence of write_to_stream/create_from_stream',
+    text='C16.read_write: every well-typed value of every writable type is written as exactly its wire encoding and reads back to itself consuming exactly what was written; C16.write_sound: whenever the writer succeeds the bytes are the encoding of a well-typed value (unrepresentable values are refused); method argument lists incl. arity check. The writer model is tied to the real writers by running both on generated representable and deliberately unrepresentable values and comparing bytes / refusal.',
+    note='value domain = the Python types the readers produce; float32 NaN payload quieting by the CPU is excluded; bytes payloads of STRING that are valid UTF-8 read back as str (known finding, counterexample theorem); correspondence is sampled.',
+    design='§5 C16')
+
 PENDING_REASON = 'check not built yet in this revision (planned: see DESIGN.md §5); not claimed until its theorem + correspondence run on the unchanged tree'
 
 
